@@ -33,12 +33,16 @@ func main() {
 	r := lib.Rand("c12")
 	progs, cases := 2, 60
 	if lib.Thorough() {
-		progs, cases = 10, 120
+		progs, cases = 8, 100
 	}
 	rep.Extra["programs"] = progs
 	rep.Extra["cases_per_program"] = cases
 	for pi := 0; pi < progs; pi++ {
-		o := gen.PtrOpts{Cases: cases, Stmts: 8 + r.Intn(8), Funcs: 2 + r.Intn(3), NoGo: false}
+		o := gen.PtrOpts{Cases: cases, Stmts: 8 + r.Intn(8), Funcs: 2 + r.Intn(3)}
+		if pi > 0 { // the first program has every feature; the others vary shape and feature set
+			o = gen.PtrOpts{Cases: cases, Stmts: 5 + r.Intn(22), Funcs: 1 + r.Intn(5), NoGo: r.Intn(6) == 0,
+				NoAppend: r.Intn(4) == 0, NoStruct: r.Intn(5) == 0}
+		}
 		pp := gen.GenPtrProg(r, o)
 		var queries []resolveQ
 		run := ptrrun.RunWith("C12", fmt.Sprintf("prog%d", pi), pp, rep, "oracle_c12", func(res *ptrrun.Result) string {
